@@ -10,7 +10,7 @@ verus! {
 
 //@@ include common.rs
 //@@ trusted bytes::Bytes stand-in (byte sequence); DeliveryTag / MessageFormat compared with value equality (`!=` of the real types is PartialEq derived)
-//@@ trusted receiver_link::count_number_of_sections_and_offset (iterator adapters) enters with the assumed contract number <= len, offset <= len (checked bounded by Kani harness `count_sections_bounds`)
+//@@ trusted receiver_link::count_number_of_sections_and_offset: the three zipped byte iterators are written as the index loop they perform (R34: position i sees octets i, i+1, i+2; the zip ends two octets before the end); Bytes::as_byte_iterator yields the payload's octets in order (byte_at)
 //@@ trusted the link endpoint (endpoint::ReceiverLink) is a stand-in: on_complete_transfer yields a Delivery decoded from exactly the bytes of the payload source it is given, or an error; on_incomplete_transfer only updates the link's unsettled map
 //@@ trusted Box<IncompleteTransfer> erased to IncompleteTransfer (R8); Arc<AtomicU32> erased (R4); generic body type T erased (decode is the link stand-in's business)
 //@@ trusted leaf stand-ins: DeliveryTag, DeliveryState(is_terminal uninterpreted), AmqpError, SessionControl, LinkFrameRx opaque
@@ -74,7 +74,10 @@ impl Bytes {
     #[verifier::external_body]
     pub fn is_empty(&self) -> (r: bool) ensures r == (self@.len() == 0) { unimplemented!() }
     #[verifier::external_body]
-    pub fn len(&self) -> (r: usize) ensures r == self@.len() { unimplemented!() }
+    pub fn len(&self) -> (r: usize) ensures r == self@.len(), self@.len() <= isize::MAX as usize { unimplemented!() }
+    /// the i-th octet `as_byte_iterator()` yields (R34)
+    #[verifier::external_body]
+    pub fn byte_at(&self, i: usize) -> (r: u8) requires i < self@.len() ensures r == self@[i as int] { unimplemented!() }
 }
 pub type Payload = Bytes;
 
@@ -97,10 +100,40 @@ pub proof fn lemma_concat_one(p: Payload)
     assert(concat(Seq::<Payload>::empty()) =~= Seq::<u8>::empty());
 }
 
-#[verifier::external_body]
-pub fn count_number_of_sections_and_offset(bytes: &Payload) -> (r: (u32, u64))
-    ensures r.0 as int <= bytes@.len(), r.1 as int <= bytes@.len(), bytes@.len() <= isize::MAX as usize,
-{ unimplemented!() }
+/// AMQP 1.0 part 3, 3.2: a message section starts with 00, 53|80, 70..78 (written out from the specification; `is_section_header` is checked against it at the end of this unit)
+pub open spec fn hdr_at(s: Seq<u8>, i: int) -> bool { 0 <= i && i + 2 < s.len() && s[i] == 0x00 && (s[i + 1] == 0x53 || s[i + 1] == 0x80) && 0x70 <= s[i + 2] <= 0x78 }
+/// number of section headers that start before position n, and the position of the last of them (0 if none)
+pub open spec fn hdr_count(s: Seq<u8>, n: int) -> int decreases n { if n <= 0 { 0 } else { hdr_count(s, n - 1) + (if hdr_at(s, n - 1) { 1int } else { 0int }) } }
+pub open spec fn hdr_last(s: Seq<u8>, n: int) -> int decreases n { if n <= 0 { 0 } else if hdr_at(s, n - 1) { n - 1 } else { hdr_last(s, n - 1) } }
+pub proof fn lemma_hdr_bounds(s: Seq<u8>, n: int)
+    requires 0 <= n,
+    ensures 0 <= hdr_count(s, n) <= n, 0 <= hdr_last(s, n) <= n, n > 0 ==> hdr_last(s, n) < n,
+    decreases n,
+{ if n > 0 { lemma_hdr_bounds(s, n - 1); } }
+//@@ fn file=fe2o3-amqp/src/link/receiver_link.rs name=count_number_of_sections_and_offset
+//@@ generics
+//@@ nowhere
+//@@ param bytes : &Payload
+//@@ subst `let b0 = bytes.as_byte_iterator(); let len = b0.len(); let b1 = bytes.as_byte_iterator().skip(1); let b2 = bytes.as_byte_iterator().skip(2); let iter = b0.zip(b1.zip(b2));` => `let len = bytes.len(); let __n: usize = if len >= 2 { len - 2 } else { 0 };` rule=R34
+//@@ subst `for (i, (&b0, (&b1, &b2))) in __it0: iter.enumerate() {` => `for i in __it0: 0..__n { let b0 = bytes.byte_at(i); let b1 = bytes.byte_at(i + 1); let b2 = bytes.byte_at(i + 2);` rule=R34
+//@@ subst `let mut section_numbers = 0;` => `let mut section_numbers: u32 = 0;` rule=optional-R5
+//@@ subst `let mut last_pos = 0;` => `let mut last_pos: usize = 0;` rule=optional-R5
+//@@ spec
+    requires bytes@.len() < 0x1_0000_0000,     // ASSUMED: a delivery buffers fewer than 2^32 bytes
+    ensures
+        ({ let n = if bytes@.len() >= 2 { bytes@.len() - 2 } else { 0 };
+           &&& r.0 as int == hdr_count(bytes@, n)                               // [C10.sections.counted-exactly] the section count of a frame's payload is the number of section headers in it (a header cut by the frame boundary is not counted here: its three octets are not all in this frame)
+           &&& r.1 as int == bytes@.len() - hdr_last(bytes@, n) }),             // [C10.sections.offset-from-the-last-header] and the offset is the distance from the last of them to the end of the payload (the whole length if there is none)
+        r.0 as int <= bytes@.len(), r.1 as int <= bytes@.len(), bytes@.len() <= isize::MAX as usize,      // [C15.sections.counters-bounded-by-the-input] whatever the octets are, both counters stay within the payload's length: no overflow, no panic
+//@@ loop 0
+        invariant
+            len == bytes@.len(), __n == (if len >= 2 { len - 2 } else { 0 }), len < 0x1_0000_0000,
+            section_numbers as int == hdr_count(bytes@, i as int), last_pos as int == hdr_last(bytes@, i as int), last_pos <= i, i <= __n,
+//@@ loopstart 0
+            proof { lemma_hdr_bounds(bytes@, i as int); }
+//@@ stmt -1
+        proof { lemma_hdr_bounds(bytes@, __n as int); }
+//@@ end
 
 //@@ type file=fe2o3-amqp/src/link/incomplete_transfer.rs kind=struct name=IncompleteTransfer
 //@@ end
